@@ -221,7 +221,7 @@ def r4_measure(ctx):
         ctx.ob(rule, MINIMAX, 'recursive call passes depth - 1 under depth != 0 (site %d)' % (sorted(sites).index(span) + 1), ok,
                found={'depth argument': sorted(ds), 'guarded': all(g for d, g in lst)}, expected='depth - 1, after `if depth == 0 { return }`',
                why='the recursion must terminate: the search never hangs')
-    ctx.floor(rule, 'recursive call sites', len(sites), 2)
+    ctx.floor(rule, 'recursive call sites', len(sites), 1)      # both branches may share one helper that recurses
     return outs
 
 
